@@ -25,6 +25,8 @@ def _run(args):
     rng = random.Random(seed)
     if rid.startswith("race"):
         r = D.cancel_race_run(rng, rid, variant=nsteps, limit=limit)
+    elif rid.startswith("coal"):
+        r = D.coalesce_run(rng, rid, variant=nsteps, limit=limit)
     else:
         r = D.random_run(rng, rid, nsteps=nsteps, limit=limit)
     try:
@@ -54,6 +56,8 @@ def run(ctx):
     ctx.tlc("ip/IpReq", "IpReq_Live.cfg", label="liveness NoHang under fairness", timeout=900, coverage=False, require_cover=False)
     n = ctx.pick(400, 6000)
     jobs = [(ctx.seed * 1000003 + i, f"req{i}", [20, 30, 45][i % 3]) for i in range(n)]
+    # directed: the tail of a split response and the next EVENT(s) delivered by one read (6 variants, secure session)
+    jobs += [(ctx.seed * 999961 + i, f"coal{i}", i % 6) for i in range(ctx.pick(48, 480))]
     with mp.get_context("fork").Pool(min(16, os.cpu_count() or 4)) as pool:
         recs = pool.map(_run, jobs, chunksize=16)
     for r in recs:
@@ -74,6 +78,7 @@ def run(ctx):
     jobs2 = [(ctx.seed * 999983 + i, f"lim{i}", [20, 30, 45][i % 3], 2) for i in range(n2)]
     # directed: a response already readable when its caller is cancelled in the same loop iteration (6 variants)
     jobs2 += [(ctx.seed * 999979 + i, f"race{i}", i % 6, 2) for i in range(ctx.pick(60, 600))]
+    jobs2 += [(ctx.seed * 999953 + i, f"coalp{i}", i % 6, 2) for i in range(ctx.pick(36, 360))]
     with mp.get_context("fork").Pool(min(16, os.cpu_count() or 4)) as pool:
         recs2 = pool.map(_run, jobs2, chunksize=16)
     for r in recs2:
@@ -99,13 +104,17 @@ def _replay(ctx):
         return
     rec = obj.get("record") or {}
     rid = str(rec.get("id", ""))
-    m = re.match(r"(req|lim|race)(\d+)$", rid)
+    m = re.match(r"(req|lim|race|coalp|coal)(\d+)$", rid)
     fresh = None
     cfg = "IpReq_Trace.cfg"
     if m:
         i = int(m.group(2))
         if m.group(1) == "req":
             fresh = _run((seed * 1000003 + i, rid, [20, 30, 45][i % 3]))
+        elif m.group(1) == "coal":
+            fresh = _run((seed * 999961 + i, rid, i % 6))
+        elif m.group(1) == "coalp":
+            fresh, cfg = _run((seed * 999953 + i, rid, i % 6, 2)), "IpReq_Trace_L2.cfg"
         elif m.group(1) == "lim":
             fresh, cfg = _run((seed * 999983 + i, rid, [20, 30, 45][i % 3], 2)), "IpReq_Trace_L2.cfg"
         else:
